@@ -1,0 +1,226 @@
+//go:build verif
+
+package lang
+
+import (
+	"fmt"
+	"strings"
+)
+
+// Verification hooks (build tag "verif"). Nothing here changes behaviour: the
+// hooks report events to a sink installed by a test harness and can stop a
+// run that exceeds a step budget.
+
+type VerifEvent struct {
+	Ev string
+	A  int
+	B  int
+	S  string
+}
+
+type VerifBudgetExceeded struct{}
+
+var verifSink func(VerifEvent)
+var verifBudget int64 = -1
+
+func VerifSetSink(f func(VerifEvent)) { verifSink = f }
+func VerifSetBudget(n int64)          { verifBudget = n }
+
+func verifEmit(ev string, a, b int, s string) {
+	if verifSink != nil {
+		verifSink(VerifEvent{ev, a, b, s})
+	}
+}
+
+func verifBool(ev string, b bool) {
+	if b {
+		verifEmit(ev, 1, 0, "")
+	} else {
+		verifEmit(ev, 0, 0, "")
+	}
+}
+
+func verifStep() {
+	if verifBudget < 0 {
+		return
+	}
+	if verifBudget == 0 {
+		panic(VerifBudgetExceeded{})
+	}
+	verifBudget--
+}
+
+// Rule: A = index of the rule among the rules of its kind, B = frame depth,
+// S = kind.
+func verifRule(e *Evaluator, kind string, rule *Rule) {
+	if verifSink == nil {
+		return
+	}
+	var list []*Rule
+	switch kind {
+	case "B":
+		list = e.beginRules
+	case "BF":
+		list = e.beginFileRules
+	case "P":
+		list = e.patternRules
+	case "EF":
+		list = e.endFileRules
+	case "E":
+		list = e.endRules
+	}
+	idx := -1
+	for i, r := range list {
+		if r == rule {
+			idx = i
+		}
+	}
+	verifSink(VerifEvent{"Rule", idx, e.stackTop.depth, kind})
+}
+
+// VerifDepth is the current frame depth (root frame = 0).
+func (e *Evaluator) VerifDepth() int { return e.stackTop.depth }
+
+func verifSexprList(l *Lexer, exprs []Expr) string {
+	parts := make([]string, 0, len(exprs))
+	for _, x := range exprs {
+		parts = append(parts, verifSexpr(l, x))
+	}
+	return strings.Join(parts, " ")
+}
+
+func verifSexpr(l *Lexer, expr Expr) string {
+	switch ex := expr.(type) {
+	case *ExprLiteral:
+		switch ex.token.Tag {
+		case Str:
+			return fmt.Sprintf("(str %q)", l.GetString(&ex.token))
+		case Ident:
+			return fmt.Sprintf("(name %s)", l.GetString(&ex.token))
+		case Regex:
+			return fmt.Sprintf("(re %q)", l.GetString(&ex.token))
+		case Num:
+			return fmt.Sprintf("(num %s)", l.GetString(&ex.token))
+		case True:
+			return "true"
+		case False:
+			return "false"
+		case Null:
+			return "null"
+		}
+		return "(lit?)"
+	case *ExprIdentifier:
+		if ex.token.Tag == Dollar {
+			return "(id $)"
+		}
+		if ex.token.Tag == Function {
+			return "(id function)"
+		}
+		if ex.token.Tag == Null {
+			return "(id null)"
+		}
+		return fmt.Sprintf("(id %s)", l.GetString(&ex.token))
+	case *ExprArray:
+		return "(arr " + verifSexprList(l, ex.Items) + ")"
+	case *ExprObject:
+		parts := make([]string, 0)
+		for _, kv := range ex.Items {
+			parts = append(parts, fmt.Sprintf("(%q %s)", kv.Key, verifSexpr(l, kv.Value)))
+		}
+		return "(obj " + strings.Join(parts, " ") + ")"
+	case *ExprUnary:
+		op := ex.OpToken.Tag.String()
+		if ex.Postfix {
+			return fmt.Sprintf("(post%s %s)", op, verifSexpr(l, ex.Expr))
+		}
+		return fmt.Sprintf("(pre%s %s)", op, verifSexpr(l, ex.Expr))
+	case *ExprBinary:
+		return fmt.Sprintf("(%s %s %s)", ex.OpToken.Tag.String(), verifSexpr(l, ex.Left), verifSexpr(l, ex.Right))
+	case *ExprCall:
+		return "(call " + verifSexpr(l, ex.Func) + " " + verifSexprList(l, ex.Args) + ")"
+	case *ExprMatch:
+		parts := make([]string, 0)
+		for _, c := range ex.Cases {
+			parts = append(parts, "(case ("+verifSexprList(l, c.Exprs)+") "+verifSexprStmt(l, c.Body)+")")
+		}
+		return "(match " + verifSexpr(l, ex.Value) + " " + strings.Join(parts, " ") + ")"
+	}
+	return "(expr?)"
+}
+
+func verifSexprStmt(l *Lexer, stmt Statement) string {
+	switch st := stmt.(type) {
+	case *StatementBlock:
+		parts := make([]string, 0)
+		for _, s := range st.Body {
+			parts = append(parts, verifSexprStmt(l, s))
+		}
+		return "(block " + strings.Join(parts, " ") + ")"
+	case *StatementPrint:
+		return "(print " + verifSexprList(l, st.Args) + ")"
+	case *StatementExpr:
+		return "(expr " + verifSexpr(l, st.Expr) + ")"
+	case *StatementReturn:
+		if st.Expr == nil {
+			return "(return)"
+		}
+		return "(return " + verifSexpr(l, st.Expr) + ")"
+	case *StatementBreak:
+		return "(break)"
+	case *StatementContinue:
+		return "(continue)"
+	case *StatementNext:
+		return "(next)"
+	case *StatementExit:
+		return "(exit)"
+	case *StatementIf:
+		if st.ElseBody == nil {
+			return "(if " + verifSexpr(l, st.Expr) + " " + verifSexprStmt(l, st.Body) + ")"
+		}
+		return "(if " + verifSexpr(l, st.Expr) + " " + verifSexprStmt(l, st.Body) + " " + verifSexprStmt(l, st.ElseBody) + ")"
+	case *StatementWhile:
+		return "(while " + verifSexpr(l, st.Expr) + " " + verifSexprStmt(l, st.Body) + ")"
+	case *StatementFor:
+		return "(for " + verifSexpr(l, st.PreExpr) + " " + verifSexpr(l, st.Expr) + " " + verifSexpr(l, st.PostExpr) + " " + verifSexprStmt(l, st.Body) + ")"
+	case *StatementForIn:
+		idx := ""
+		if st.IndexIdent != nil {
+			idx = " " + verifSexpr(l, st.IndexIdent)
+		}
+		return "(forin " + verifSexpr(l, st.Ident) + idx + " " + verifSexpr(l, st.Iterable) + " " + verifSexprStmt(l, st.Body) + ")"
+	}
+	return "(stmt?)"
+}
+
+// VerifExprSexpr parses an expression and prints its tree.
+func VerifExprSexpr(src string) (string, error) {
+	lex := NewLexer(src)
+	parser := NewParser(&lex)
+	expr, err := parser.ParseExpression()
+	if err != nil {
+		return "", err
+	}
+	return verifSexpr(&lex, expr), nil
+}
+
+// VerifProgSexpr parses a program and prints its tree.
+func VerifProgSexpr(src string) (string, error) {
+	lex := NewLexer(src)
+	parser := NewParser(&lex)
+	prog, err := parser.Parse()
+	if err != nil {
+		return "", err
+	}
+	parts := make([]string, 0)
+	for _, fn := range prog.Functions {
+		parts = append(parts, "(function "+lex.GetString(&fn.ident)+" ("+strings.Join(fn.Args, " ")+") "+verifSexprStmt(&lex, fn.Body)+")")
+	}
+	for _, r := range prog.Rules {
+		pat := "-"
+		if r.Pattern != nil {
+			pat = verifSexpr(&lex, r.Pattern)
+		}
+		parts = append(parts, "(rule "+r.Kind.String()+" "+pat+" "+verifSexprStmt(&lex, r.Body)+")")
+	}
+	return "(prog " + strings.Join(parts, " ") + ")", nil
+}
